@@ -1,7 +1,10 @@
 /-
 C16 - fixed-point conversion saturates, is monotone and inverts exactly.
+Property theorems about the model RigModel/Model/C16.lean (helper lemmas in Lemmas/C16.lean).
+The specification predicates (`SpecFp`, `SpecFix`, `SpecMono`, `Exact53`) are the ones the
+harness evaluates on the implementation's outputs.
 -/
-import RigModel.Model.C16
+import RigModel.Lemmas.C16
 set_option linter.unusedSimpArgs false
 set_option linter.unusedVariables false
 
@@ -14,5 +17,220 @@ theorem dtypes_cover :
     dtypeTable.map (fun t => (t.1, t.2.1)) = npBits.flatMap (fun b => [(false, b), (true, b)]) ∧
     (∀ t ∈ dtypeTable, t.2.2 = (if t.1 then "int" else "uint") ++ toString t.2.1) := by
   decide
+
+/-- the clamp used by the code -/
+def clamp (fmt : Fmt) (t : Int) : Int := max (min fmt.maxV t) fmt.minV
+
+/-- the exact scaled value lies in the finite range of doubles -/
+def FiniteScaled (fmt : Fmt) (v : Dy) : Prop := magLt v.m (v.e + fmt.frac) 1024 = true
+
+/-- the format is one `float_to_fp` accepts -/
+def Fmt.Ok (fmt : Fmt) : Prop := ¬ (fmt.signed = true ∧ fmt.bits = 0) ∧ fmt.frac < 1024
+
+theorem fp_total (fmt : Fmt) (v : Dy) (hf : fmt.Ok) (hv : FiniteScaled fmt v) :
+    floatToFp fmt v = .ok (clamp fmt (truncScaled v.m (v.e + fmt.frac))) := by
+  obtain ⟨h1, h2⟩ := hf
+  unfold FiniteScaled at hv
+  unfold floatToFp clamp
+  have a : (fmt.signed && fmt.bits == 0) = false := by
+    cases hs : fmt.signed <;> simp_all
+  have b : ¬ (1024 ≤ fmt.frac) := by omega
+  simp [a, b, hv]
+
+theorem fp_ok_inv {fmt : Fmt} {v : Dy} {r : Int} (h : floatToFp fmt v = .ok r) :
+    fmt.Ok ∧ FiniteScaled fmt v ∧ r = clamp fmt (truncScaled v.m (v.e + fmt.frac)) := by
+  unfold floatToFp at h
+  split at h
+  · cases h
+  · split at h
+    · cases h
+    · split at h
+      · cases h
+      · rename_i a b c
+        injection h with h
+        refine ⟨⟨?_, by omega⟩, ?_, h.symm⟩
+        · intro ⟨x, y⟩; simp [x, y] at a
+        · unfold FiniteScaled; simpa using c
+
+theorem clamp_spec (fmt : Fmt) (v : Dy) (t : Int)
+    (ht : IsTrunc t (scaledNum fmt v) (scaledDen fmt v)) : SpecFp fmt v (clamp fmt t) := by
+  have hd : 0 < scaledDen fmt v := den_pos _
+  have hM := maxV_nonneg fmt
+  have hm := minV_nonpos fmt
+  obtain ⟨a, b⟩ := ht
+  unfold SpecFp clamp
+  simp only
+  generalize scaledNum fmt v = n at *
+  generalize scaledDen fmt v = d at *
+  generalize fmt.maxV = M at *
+  generalize fmt.minV = m at *
+  split
+  · rename_i h
+    have hn : 0 ≤ n := by nlinarith
+    obtain ⟨x1, x2⟩ := a hn
+    have : M + 1 < t + 1 := by nlinarith
+    omega
+  · split
+    · rename_i h1 h
+      have hn : n < 0 := by nlinarith
+      obtain ⟨x1, x2⟩ := b hn
+      have : t - 1 < m - 1 := by nlinarith
+      omega
+    · rename_i h1 h2
+      rw [not_le] at h1 h2
+      have : m ≤ t ∧ t ≤ M := by
+        rcases lt_or_ge n 0 with hn | hn
+        · obtain ⟨x1, x2⟩ := b hn
+          have : m - 1 < t := by nlinarith
+          have : t - 1 < 0 := by nlinarith
+          omega
+        · obtain ⟨x1, x2⟩ := a hn
+          have : t < M + 1 := by nlinarith
+          have : 0 < t + 1 := by nlinarith
+          omega
+      have e : max (min M t) m = t := by omega
+      rw [e]; exact ⟨a, b⟩
+
+/-- **Saturation formula.** -/
+theorem fp_sat (fmt : Fmt) (v : Dy) (r : Int) (h : floatToFp fmt v = .ok r) : SpecFp fmt v r := by
+  obtain ⟨_, _, rfl⟩ := fp_ok_inv h
+  exact clamp_spec fmt v _ (tdiv_isTrunc _ _ (den_pos _))
+
+theorem spec_unique (fmt : Fmt) (v : Dy) (r r' : Int) (h : SpecFp fmt v r) (h' : SpecFp fmt v r') : r = r' := by
+  unfold SpecFp at h h'
+  simp only at h h'
+  split at h
+  · rename_i c; rw [if_pos c] at h'; omega
+  · rename_i c; rw [if_neg c] at h'
+    split at h
+    · rename_i c2; rw [if_pos c2] at h'; omega
+    · rename_i c2; rw [if_neg c2] at h'
+      exact isTrunc_unique (den_pos _) h h'
+
+theorem spec_range (fmt : Fmt) (v : Dy) (r : Int) (h : SpecFp fmt v r) : fmt.minV ≤ r ∧ r ≤ fmt.maxV := by
+  have := spec_unique fmt v r _ h (clamp_spec fmt v _ (tdiv_isTrunc _ _ (den_pos _)))
+  have hM := maxV_nonneg fmt
+  have hm := minV_nonpos fmt
+  rw [this]; unfold clamp; omega
+
+theorem fp_range (fmt : Fmt) (v : Dy) (r : Int) (h : floatToFp fmt v = .ok r) :
+    fmt.minV ≤ r ∧ r ≤ fmt.maxV := spec_range fmt v r (fp_sat fmt v r h)
+
+/-- **Within one LSB.** -/
+theorem fp_lsb (fmt : Fmt) (v : Dy) (r : Int) (h : floatToFp fmt v = .ok r)
+    (hlo : fmt.minV * scaledDen fmt v ≤ scaledNum fmt v)
+    (hhi : scaledNum fmt v ≤ fmt.maxV * scaledDen fmt v) :
+    -(scaledDen fmt v) < scaledNum fmt v - r * scaledDen fmt v ∧
+      scaledNum fmt v - r * scaledDen fmt v < scaledDen fmt v := by
+  have hs := fp_sat fmt v r h
+  have hd : 0 < scaledDen fmt v := den_pos _
+  unfold SpecFp at hs
+  simp only at hs
+  rw [if_neg (by nlinarith), if_neg (by nlinarith)] at hs
+  obtain ⟨a, b⟩ := hs
+  rcases lt_or_ge (scaledNum fmt v) 0 with hn | hn
+  · obtain ⟨x1, x2⟩ := b hn
+    constructor <;> nlinarith
+  · obtain ⟨x1, x2⟩ := a hn
+    constructor <;> nlinarith
+
+/-- **Monotone.** -/
+theorem fp_mono (fmt : Fmt) (v w : Dy) (r r' : Int) (hle : Dy.le v w)
+    (h : floatToFp fmt v = .ok r) (h' : floatToFp fmt w = .ok r') : r ≤ r' := by
+  obtain ⟨_, _, rfl⟩ := fp_ok_inv h
+  obtain ⟨_, _, rfl⟩ := fp_ok_inv h'
+  have t1 := tdiv_isTrunc (num v.m (v.e + fmt.frac)) _ (den_pos (v.e + fmt.frac))
+  have t2 := tdiv_isTrunc (num w.m (w.e + fmt.frac)) _ (den_pos (w.e + fmt.frac))
+  have := isTrunc_mono (den_pos _) (den_pos _) ((cross_iff_le v w fmt.frac).mpr hle) t1 t2
+  unfold clamp truncScaled
+  omega
+
+theorem exact53_of_small (k : Int) (h : k.natAbs ≤ 2 ^ 53) : Exact53 k := by
+  unfold Exact53 round53Val
+  rcases Nat.lt_or_ge k.natAbs (2 ^ 53) with h1 | h1
+  · rw [round53_small k h1]; simp
+  · have : k.natAbs = 2 ^ 53 := by omega
+    rcases Int.natAbs_eq k with e | e <;> rw [this] at e <;> rw [e] <;> decide
+
+
+/-- `2.0**(-n_frac)` exists, and `k` and `k * 2^-frac` are finite as doubles (no overflow in `fp_to_float`) -/
+def InverseDomain (fmt : Fmt) (k : Int) : Prop :=
+  -1024 < fmt.frac ∧ magLt k 0 1024 = true ∧ magLt k (-fmt.frac) 1024 = true
+
+theorem tdiv_one' (a : Int) : a.tdiv 1 = a := by simp
+
+/-- **Inverse.** every in-range fixed-point value that a double holds exactly survives
+`fp_to_float` followed by `float_to_fp` unchanged. -/
+theorem fp_inverse (fmt : Fmt) (k : Int) (hf : fmt.Ok) (hlo : fmt.minV ≤ k) (hhi : k ≤ fmt.maxV)
+    (hex : Exact53 k) (hdom : InverseDomain fmt k) :
+    ∃ d, fpToFloat fmt.frac k = .ok (.fin d) ∧ floatToFp fmt d = .ok k := by
+  obtain ⟨hfl, hk0, hkf⟩ := hdom
+  unfold Exact53 round53Val at hex
+  have hfr : fmt.frac < 1024 := hf.2
+  -- value of round53 k
+  have hse : 0 ≤ (round53 k).e := by unfold round53; dsimp only; omega
+  generalize hr : round53 k = r at hex hse
+  have hq : (r.m : ℚ) * (2 : ℚ) ^ r.e = (k : ℚ) := by
+    have : ((r.m * 2 ^ r.e.toNat : Int) : ℚ) = (k : ℚ) := by rw [hex]
+    rw [← this]; push_cast
+    rw [← zpow_natCast (2 : ℚ) r.e.toNat, Int.toNat_of_nonneg hse]
+  have habs : |(r.m : ℚ)| * (2 : ℚ) ^ r.e = |(k : ℚ)| := by
+    rw [← hq, abs_mul, abs_of_pos (show (0 : ℚ) < (2 : ℚ) ^ r.e by positivity)]
+  have m1 : magLt r.m r.e 1024 = true := by
+    rw [magLt_iff, habs]; have := (magLt_iff k 0 1024).mp hk0; simpa using this
+  have m2 : magLt r.m (r.e + -fmt.frac) 1024 = true := by
+    rw [magLt_iff, zpow_add₀ (by norm_num), ← mul_assoc, habs]
+    exact (magLt_iff k (-fmt.frac) 1024).mp hkf
+  have e1 : fpToFloat fmt.frac k = .ok (toDouble r.m (r.e + -fmt.frac)) := by
+    unfold fpToFloat pow2f intToDouble
+    have a : ¬ (1024 ≤ -fmt.frac) := by omega
+    have b : ¬ (-fmt.frac < -1074) := by omega
+    simp only [a, b, if_false, hr, m1, if_true, bind, Except.bind, pure, Except.pure, mulScale]
+  by_cases hm : r.m = 0
+  · -- k = 0
+    have hk : k = 0 := by rw [← hex, hm]; simp
+    refine ⟨⟨0, 0⟩, ?_, ?_⟩
+    · rw [e1]; unfold toDouble; simp [hm]
+    · have hv : FiniteScaled fmt ⟨0, 0⟩ := by
+        unfold FiniteScaled; rw [magLt_iff]; simp
+      rw [fp_total fmt _ hf hv, hk]
+      have : truncScaled 0 (0 + fmt.frac) = 0 := by
+        unfold truncScaled num; split <;> simp
+      simp only [this]
+      have : clamp fmt 0 = 0 := by unfold clamp; omega
+      rw [this]
+  · refine ⟨⟨r.m, r.e + -fmt.frac⟩, ?_, ?_⟩
+    · rw [e1]; unfold toDouble
+      have c : -1074 ≤ r.e + -fmt.frac := by omega
+      simp [hm, m2, c]
+    · have hv : FiniteScaled fmt ⟨r.m, r.e + -fmt.frac⟩ := by
+        unfold FiniteScaled
+        have : r.e + -fmt.frac + fmt.frac = r.e := by omega
+        simp only [this, m1]
+      rw [fp_total fmt _ hf hv]
+      have e : r.e + -fmt.frac + fmt.frac = r.e := by omega
+      have : truncScaled r.m (r.e + -fmt.frac + fmt.frac) = k := by
+        simp only [e]
+        unfold truncScaled num den
+        simp only [hse, if_true, tdiv_one', hex]
+      simp only [this]
+      have : clamp fmt k = k := by unfold clamp; omega
+      rw [this]
+
+instance (f : Fmt) : Decidable f.Ok := by unfold Fmt.Ok; infer_instance
+instance (f : Fmt) (k : Int) : Decidable (InverseDomain f k) := by unfold InverseDomain; infer_instance
+
+example : (⟨true, 64, 32⟩ : Fmt).Ok ∧ (⟨true, 64, 32⟩ : Fmt).minV ≤ 2 ^ 40 + 1 ∧
+    (2 ^ 40 + 1 : Int) ≤ (⟨true, 64, 32⟩ : Fmt).maxV ∧ Exact53 (2 ^ 40 + 1) ∧
+    InverseDomain ⟨true, 64, 32⟩ (2 ^ 40 + 1) := by decide +kernel
+
+/-- beyond 53 significant bits the round trip is impossible: `2^53 + 1` in the signed 64-bit
+integer format comes back as `2^53` (known finding `inverse-beyond-2^53`) -/
+theorem inverse_counterexample :
+    (fpToFloat 0 (2 ^ 53 + 1) >>= fun x => match x with
+      | .fin d => floatToFp ⟨true, 64, 0⟩ d
+      | .inf _ => .error .overflowInt) = .ok (2 ^ 53) ∧
+    (⟨true, 64, 0⟩ : Fmt).minV ≤ 2 ^ 53 + 1 ∧ (2 ^ 53 + 1 : Int) ≤ (⟨true, 64, 0⟩ : Fmt).maxV ∧
+    ¬ Exact53 (2 ^ 53 + 1) := by decide +kernel
 
 end Rig.C16
